@@ -1,4 +1,6 @@
 import PhyloModel.Props.C05
+import PhyloModel.Props.C05Arena
+import PhyloModel.Props.C05Inv
 #print axioms C05.branches_inner
 #print axioms C05.branchesL_inner
 #print axioms C05.partitions_exact
@@ -10,3 +12,23 @@ import PhyloModel.Props.C05
 #print axioms C05.spec_reorder_invariant
 #print axioms C05.spec_unary_invariant
 #print axioms C05.spec_root_style_invariant
+#print axioms C05.ladderize_keeps_bipartitions
+#print axioms C05.compress_keeps_bipartitions
+#print axioms C05.rescale_scales_the_tree
+#print axioms C05.reported_iff_leaf_counts
+#print axioms C05.reorder_invariant
+#print axioms C05.unary_invariant
+#print axioms C05.unary_root_invariant
+#print axioms C05.root_style_invariant
+#print axioms C05.unrooted_topology_invariant
+#print axioms C05.rename_leaf_index
+#print axioms C05.rename_partitions
+#print axioms C05.rename_reported_iff
+#print axioms C05.rename_reported_names
+#print axioms C05.exF_inj
+#print axioms C05.ex1_names
+#print axioms C05.ex1_leafIndex
+#print axioms C05.ex1_partitions
+#print axioms C05.ex12_reorder
+#print axioms C05.ex14_unary
+#print axioms C05.ex1_renamed_partitions
